@@ -34,7 +34,48 @@ func (c Case) value() (reflect.Value, error) {
 	if err := json.Unmarshal(c.Val, pv.Interface()); err != nil {
 		return reflect.Value{}, err
 	}
+	rawOctets(pv.Elem())
 	return pv, nil // pointer to the value (the way the processor calls the codec)
+}
+
+// rawOctets puts back the octets that the JSON form of a case writes as U+E000 followed by two hex digits
+// (string contents that are not valid UTF-8).
+func rawOctets(v reflect.Value) {
+	switch v.Kind() {
+	case reflect.String:
+		s := v.String()
+		if !strings.Contains(s, "\ue000") || !v.CanSet() {
+			return
+		}
+		var out []byte
+		for i := 0; i < len(s); {
+			if strings.HasPrefix(s[i:], "\ue000") && i+5 <= len(s) {
+				if b, err := strconv.ParseUint(s[i+3:i+5], 16, 8); err == nil {
+					out = append(out, byte(b))
+					i += 5
+					continue
+				}
+			}
+			out = append(out, s[i])
+			i++
+		}
+		v.SetString(string(out))
+	case reflect.Ptr, reflect.Interface:
+		if !v.IsNil() {
+			rawOctets(v.Elem())
+		}
+	case reflect.Struct:
+		for i := 0; i < v.NumField(); i++ {
+			rawOctets(v.Field(i))
+		}
+	case reflect.Slice:
+		if v.Type().Elem().Kind() == reflect.Uint8 {
+			return
+		}
+		for i := 0; i < v.Len(); i++ {
+			rawOctets(v.Index(i))
+		}
+	}
 }
 
 var regNames = func() []string {
@@ -797,6 +838,84 @@ func judgeC16Mut(c Case) *h.Verdict {
 			in[ep.lenOff] = byte(avail + 1)
 			if !try(in, "error", "length-exceeds-input") {
 				return v
+			}
+		}
+	}
+	// identifiers that name the right number in the wrong way: the number plus 2^64 (ten base-128 digits: a decoder
+	// that accumulates in 64 bits sees the member's own number), and the member's number under the APPLICATION or
+	// PRIVATE class.  Tried on the outermost element and on each of its direct members when those are context-tagged.
+	if len(pos) > 0 {
+		top := pos[0]
+		var targets []elemPos
+		targets = append(targets, top)
+		if ref[top.idOff]&0x20 != 0 {
+			cur := top.contentOff
+			for _, ep := range pos[1:] {
+				if ep.idOff == cur {
+					targets = append(targets, ep)
+					cur = ep.contentOff + ep.contentLen
+				}
+			}
+		}
+		if len(targets) > 12 {
+			targets = targets[:12]
+		}
+		encLen := func(n int) []byte {
+			if n < 128 {
+				return []byte{byte(n)}
+			}
+			var tmp []byte
+			for l := n; l > 0; l >>= 8 {
+				tmp = append([]byte{byte(l)}, tmp...)
+			}
+			return append([]byte{0x80 | byte(len(tmp))}, tmp...)
+		}
+		rebuild := func(ep elemPos, newID []byte) []byte {
+			if ep == top {
+				return append(append([]byte{}, newID...), ref[top.lenOff:]...)
+			}
+			content := append([]byte{}, ref[top.contentOff:ep.idOff]...)
+			content = append(content, newID...)
+			content = append(content, ref[ep.lenOff:top.contentOff+top.contentLen]...)
+			out := append([]byte{}, ref[top.idOff:top.lenOff]...)
+			out = append(out, encLen(len(content))...)
+			out = append(out, content...)
+			return append(out, ref[top.contentOff+top.contentLen:]...)
+		}
+		for _, ep := range targets {
+			id := ref[ep.idOff:ep.lenOff]
+			if id[0]&0xc0 != 0x80 {
+				continue // not context-tagged
+			}
+			// the tag number
+			num := uint64(id[0] & 0x1f)
+			if num == 0x1f {
+				num = 0
+				for _, b := range id[1:] {
+					num = num<<7 | uint64(b&0x7f)
+				}
+			}
+			// number + 2^64 = 2 x 128^9 + number
+			digits := []byte{2, 0, 0, 0, 0, 0, 0, 0, 0, 0}
+			for i, n := 9, num; i >= 0 && n > 0; i, n = i-1, n>>7 {
+				digits[i] += byte(n & 0x7f)
+			}
+			long := []byte{id[0] | 0x1f}
+			for i, d := range digits {
+				if i < len(digits)-1 {
+					d |= 0x80
+				}
+				long = append(long, d)
+			}
+			if !try(rebuild(ep, long), "error", "tag-number-plus-2^64") {
+				return v
+			}
+			for _, class := range []byte{0x40, 0xc0} {
+				other := append([]byte{}, id...)
+				other[0] = other[0]&0x3f | class
+				if !try(rebuild(ep, other), "error", "member-number-under-other-class") {
+					return v
+				}
 			}
 		}
 	}
